@@ -218,6 +218,17 @@ ADDENDA = {
     "C19": "vy_eval is interpreted with ctx.online true on a marked text behind literal-looking prefixes, everything outside the package being a recorder: no evaluator sees the text, every callee may raise without vy_eval raising, rejected text comes back unchanged; functions that depend on the mode are handed the running context (never a module-level default, never by omission); an evaluator used as a value is a site; helpers that always exit are no-return.",
     "C20": "Keys stay their own token after every class representative that is a complete token; character classes include the truth sets of str predicates the lexer calls; the tables are bound once to their literal and never written; program bytes reach vyxal_to_utf8 from a binary handle.",
 }
+ADDENDA4 = {
+    "C02": "Lexer facts are the union over both lexer modes (one-character variable names on/off); variable tokens are compiled with names from that language.",
+    "C04": "The closed-vs-truncated sweep runs in both lexer modes.",
+    "C06": "The round trip starts at the element q as the table defines it.",
+    "C09": "In modifier templates function_call(stack, ...) directly follows the modifier's own push; ctx.retain_popped is switched off again on every path.",
+    "C11": "The transition model also ranges over ctx.online; each run's context is a new Context().",
+    "C13": "Methods store nothing on the instance besides source and cache; the infinite tag is only set on unbounded generators.",
+    "C18": "Emitted text is also compared token-wise with the plain payload's (a literal closed early shows as extra tokens even when the remainder does not parse).",
+}
+for _k, _v in ADDENDA4.items():
+    ADDENDA[_k] += " " + _v
 for _k, _v in ADDENDA.items():
     CHECKS[_k]["text"] += " " + _v
 
